@@ -171,7 +171,7 @@ def gen_collision_case(rng):
     """Different rows of one source that produce the SAME statement: adjacent references whose concatenations coincide,
     values that canonicalise to the same lexical form, values that differ only in non-printable characters."""
     EX = mapcase.EX
-    kind = rng.choice(['concat', 'integer', 'boolean', 'printable', 'datetime'])
+    kind = rng.choice(['concat', 'integer', 'boolean', 'printable', 'datetime', 'langcase'])
     cfg = {'nquads': rng.random() < 0.5, 'mode': rng.choice(['PARTIAL-AGGREGATIONS', 'MAXIMAL', 'NO'])}
     def tm(k, v, ck='iri', tt=''):
         return {'k': k, 'v': v, 'ck': ck, 'tt': tt}
@@ -188,6 +188,12 @@ def gen_collision_case(rng):
     elif kind == 'datetime':
         rows = [['1', '2020-01-01 10:00:00', 'u'], ['1', '2020-01-01T10:00:00', 'v'], ['2', '2021-01-01 10:00:00', 'y']]
         obj = {'m': tm('ref', 'x'), 'lang': None, 'dt': tm('const', mapcase.XSD + 'dateTime'), 'joins': []}
+    elif kind == 'langcase':
+        # two rules whose constant language tags differ only in letter case: different statements as long as the tags are written as given
+        rows = [['1', 'colour', 'u'], ['2', 'c', 'y']]
+        t1, t2 = rng.choice([('en-GB', 'en-gb'), ('EN', 'en'), ('zh-Hant', 'zh-hant'), ('De', 'de')])
+        obj = {'m': tm('ref', 'x'), 'lang': tm('const', t1, 'lit'), 'dt': None, 'joins': []}
+        extra_obj = {'m': tm('ref', 'x'), 'lang': tm('const', t2, 'lit'), 'dt': None, 'joins': []}
     else:
         rows = [['1', 'a\x07b', 'u'], ['1', 'ab', 'v'], ['1', 'a\u200bb', 'w'], ['2', 'c', 'y']]
         obj = {'m': tm('ref', 'x'), 'lang': None, 'dt': None, 'joins': []}
@@ -195,7 +201,8 @@ def gen_collision_case(rng):
     rng.shuffle(rows)
     return {'cfg': cfg, 'sources': [{'key': 'S0', 'kind': 'csv', 'cols': ['k', 'x', 'y'], 'rows': rows}],
             'doc': [{'id': EX + 'tm/TM0', 'src': 'S0', 'nonasserted': False, 'subj': subj, 'sjoins': [], 'classes': [], 'sgraphs': [],
-                     'poms': [{'preds': [tm('const', EX + 'p/p')], 'objs': [obj], 'graphs': []}]}]}
+                     'poms': [{'preds': [tm('const', EX + 'p/p')], 'objs': [obj], 'graphs': []}]
+                             + ([{'preds': [tm('const', EX + 'p/p')], 'objs': [extra_obj], 'graphs': []}] if kind == 'langcase' else [])}]}
 
 
 def run(ctx, res):
